@@ -13,3 +13,4 @@ pub mod c02;
 pub mod c11;
 pub mod eng;
 pub mod c12;
+pub mod c17;
